@@ -13,8 +13,10 @@
     c07.attach <func> <variant> <sig> …           → C06's `Np.run` with the unit rule filled in (label of leaf 0)
     c07.memo <func> <variant>                     → the regenerated memo configuration of the handler (`m,r,e,s`)
     c07.history <func> <variant> <groups> <expos> <init> <events>
-                                                  → `LabelMemo.run` with the regenerated configuration of that row:
-                                                    log2(base_value) of the label of every call of the history
+                                                  → `LabelMemo.run` with the regenerated configuration of that row
+                                                    (handler rows and memoised unit rules `unyt.array._x_unit rule`):
+                                                    log2(base_value) of the label of every call of the history, and
+                                                    `LabelMemo.missesOf` (number of cache misses)
                                                     (groups `0,1`; expos `2,1/2` per group; init `r.x=k;…`;
                                                     events `c:r:s` (call on symbol set s of registry r: symbol
                                                     3s+g for group g) | `m:r:s:k0,k1,k2` (re-scale set s of r))
@@ -28,6 +30,7 @@ import UnytModel.Ref.C07Degrees
 import UnytModel.Ref.C07Exclusions
 import UnytModel.LabelMemo
 import UnytModel.Generated.C07Memo
+import UnytModel.Generated.C07RuleMemo
 
 namespace Unyt
 open Unyt.UR
@@ -134,13 +137,13 @@ def c07HistEvents (groups : List Nat) (expos : List Rat) (s : String) : Option (
 def opsC07 : Handler := fun st fields =>
   match fields with
   | ["c07.memo", f, v] =>
-    match Generated.memoRows.find? fun r => r.func == f && r.variant == v with
+    match (Generated.memoRows ++ Generated.ruleMemoRows).find? fun r => r.func == f && r.variant == v with
     | some r =>
       let b : Bool → String := fun x => if x then "1" else "0"
-      some (st, s!"ok\t{b r.cfg.memo},{b r.cfg.byReg},{b r.cfg.byExpr},{b r.cfg.byScale}\t{Generated.memoRows.length}")
-    | none => some (st, s!"norow\t-\t{Generated.memoRows.length}")
+      some (st, s!"ok\t{b r.cfg.memo},{b r.cfg.byReg},{b r.cfg.byExpr},{b r.cfg.byScale}\t{Generated.memoRows.length}\t{Generated.ruleMemoRows.length}")
+    | none => some (st, s!"norow\t-\t{Generated.memoRows.length}\t{Generated.ruleMemoRows.length}")
   | ["c07.history", f, v, groupsS, exposS, initS, eventsS] =>
-    match Generated.memoRows.find? fun r => r.func == f && r.variant == v with
+    match (Generated.memoRows ++ Generated.ruleMemoRows).find? fun r => r.func == f && r.variant == v with
     | none => some (st, "norow")
     | some row =>
       match (if groupsS == "" then some [] else (groupsS.splitOn ",").mapM String.toNat?),
@@ -148,8 +151,9 @@ def opsC07 : Handler := fun st fields =>
       | some groups, some expos =>
         (match c07HistEvents groups expos eventsS with
          | some evs =>
-           let ans := LabelMemo.run row.cfg (c07HistWorld (c07HistInit initS)) [] evs
-           some (st, "ok\t" ++ " ".intercalate (ans.map fun l => ratStr l.scale))
+           let w := c07HistWorld (c07HistInit initS)
+           let ans := LabelMemo.run row.cfg w [] evs
+           some (st, "ok\t" ++ " ".intercalate (ans.map fun l => ratStr l.scale) ++ s!"\t{LabelMemo.missesOf row.cfg w evs}")
          | none => some (st, "bad-events"))
       | _, _ => some (st, "bad-args")
   | ["c07.dump.counts"] =>
